@@ -17,12 +17,12 @@ LEVEL_TEXT = ('for every combination the path printed by trash-list must be the 
               'different one does not) and the date both print must be the one trash-empty DAYS compares (purged at +1 s, kept at +0 s); in $topdir directories the result must '
               'also equal the spec reading (first Path / first DeletionDate line, relative to $topdir)')
 LEVEL_NOTE = 'trusted: R1; the base directory of a relative Path inside the HOME trash is not fixed by the spec -- only agreement between the commands is demanded there'
-RULE = ('Path value {absolute, relative, relative with .., %41, %2F, %ZZ, lone %, empty, inner+trailing spaces, leading space, CRLF, non-ASCII escaped} x structure {plain, duplicate Path, '
+RULE = ('Path value {absolute, relative, relative with .., %41, %2F, %ZZ, lone %, empty, inner+trailing spaces, leading space, CRLF, non-ASCII escaped, an escape that is not valid UTF-8 (%E9)} x structure {plain, duplicate Path, '
         'duplicate DeletionDate, extra keys, extra section, missing header, lowercase key, "Path =", date before path, no final newline, malformed first DeletionDate followed by a valid one} x trash dir {home on /, home on own volume, '
-        '.Trash/uid, .Trash-uid, --trash-dir}; non-trivial = at least one command produced a reading; distinct = (path class, structure, dir, agreement class)')
-PATHS = ['abs', 'rel', 'rel-dotdot', 'pct41', 'pct2F', 'pctZZ', 'pct-lone', 'empty', 'spaces', 'leadsp', 'crlf', 'utf8']
+        '.Trash/uid, .Trash-uid, --trash-dir, --trash-dir through a symlink that crosses a volume boundary}; non-trivial = at least one command produced a reading; distinct = (path class, structure, dir, agreement class)')
+PATHS = ['abs', 'rel', 'rel-dotdot', 'pct41', 'pct2F', 'pctZZ', 'pct-lone', 'empty', 'spaces', 'leadsp', 'crlf', 'utf8', 'pctE9']
 STRUCTS = ['plain', 'dup-path', 'dup-date', 'extra-keys', 'extra-section', 'no-header', 'lower-key', 'path-space-eq', 'date-first', 'no-final-nl', 'bad-date-then-good']
-DIRS = ['home-root', 'home-ownvol', 'top', 'alt', 'trash-dir']
+DIRS = ['home-root', 'home-ownvol', 'top', 'alt', 'trash-dir', 'trash-dir-xlink']
 DATE = '2021-03-04T05:06:07'
 
 
@@ -36,7 +36,7 @@ def cases(tier):
 
 def path_value(pv, rel_ok):
     return {'abs': '/data/w/a', 'rel': 'u/w/a', 'rel-dotdot': '../x/a', 'pct41': 'u/w/%41', 'pct2F': 'u/w%2Fa', 'pctZZ': 'u/w/%ZZ',
-            'pct-lone': 'u/w/100%', 'empty': '', 'spaces': 'u/w/a b ', 'leadsp': ' u/w/a', 'crlf': 'u/w/a\r', 'utf8': 'u/w/%E6%97%A5'}[pv]
+            'pct-lone': 'u/w/100%', 'empty': '', 'spaces': 'u/w/a b ', 'leadsp': ' u/w/a', 'crlf': 'u/w/a\r', 'utf8': 'u/w/%E6%97%A5', 'pctE9': 'u/w/caf%E9'}[pv]
 
 
 def content(pv, st):
@@ -59,12 +59,16 @@ def run_case(c):
     W = scen.base_world(mounts=mounts, cwd='/')
     W.dir('/data/w').dir('/mnt/v1/u/w').dir('/home/u/w')
     td, top = {'home-root': (scen.HOME_TRASH, None), 'home-ownvol': (scen.HOME_TRASH, None), 'top': ('/mnt/v1/.Trash/0', '/mnt/v1'),
-               'alt': ('/mnt/v1/.Trash-0', '/mnt/v1'), 'trash-dir': ('/mnt/v1/custom', '/mnt/v1')}[d]
+               'alt': ('/mnt/v1/.Trash-0', '/mnt/v1'), 'trash-dir': ('/mnt/v1/custom', '/mnt/v1'),
+               'trash-dir-xlink': ('/mnt/v1/custom', None)}[d]          # given as --trash-dir /home/u/lnk (a symlink that crosses the volume boundary): no spec reading, agreement only
     if d == 'top':
         W.dir('/mnt/v1/.Trash', mode=0o1777)
     raw = content(c['pv'], c['st'])
     scen.add_trashed(W, td, 'e', None, raw=raw, payload='file', tag='the payload')
     tdopt = ['--trash-dir', td] if d == 'trash-dir' else []
+    if d == 'trash-dir-xlink':
+        W.link('/home/u/lnk', '/mnt/v1/custom')
+        tdopt = ['--trash-dir', '/home/u/lnk']
     spec = W.spec()
     readings = {}
     with cell.Sandbox(spec) as sb:
@@ -79,7 +83,7 @@ def run_case(c):
         if li:
             readings['restore_date'], readings['restore_path'] = li[0][1], li[0][2]
         L = readings.get('list_path')
-        if d != 'trash-dir' and L is not None and L != '':
+        if not d.startswith('trash-dir') and L is not None and L != '':
             esc = ''.join('[%s]' % ch if ch in '*?[' else ch for ch in L)
             if esc.startswith('/'):
                 sb.run(['trash-rm', esc + 'x'], cwd='/')
@@ -94,7 +98,7 @@ def run_case(c):
         else:
             sb.run(['trash-empty'] + tdopt + ['0'], cwd='/', env=dict(W.env, TRASH_DATE='2999-01-01T00:00:00'))
             readings['empty_undated'] = scen.entry_state(before, sb.snapshot(), td, 'e')
-        if d != 'trash-dir' and L and L.startswith('/'):
+        if not d.startswith('trash-dir') and L and L.startswith('/'):
             sb.run(['trash-rm', esc], cwd='/')
             readings['rm_exact'] = scen.entry_state(before, sb.snapshot(), td, 'e')
     with cell.Sandbox(spec) as sb2:
@@ -148,6 +152,8 @@ def run_case(c):
         want = want if want.startswith('/') else top + '/' + want
         if c['pv'] == 'crlf' and L + '\r' == want:
             want = L      # a CR before the newline: text-mode reading drops it; the spec is silent -> don't-care
+        if c['pv'] == 'pctE9':
+            want = L      # an escape that is not UTF-8: how the undecodable byte is shown is not compared, only that the four commands agree
         if L != want:
             return viol('reading-differs-from-spec', '|pv=%s|struct=%s' % (c['pv'], c['st']))
         wd = p['date'].decode() if p['date_valid'] else None
